@@ -6,6 +6,6 @@ mkdir -p "$D/repo" && cp -r /repo/src "$D/repo/src"
 ( cd "$D/repo" && patch -p1 -s --no-backup-if-mismatch < "$P" ) || { echo "PATCH-FAILED $P"; rm -rf "$D"; exit 3; }
 rc=0
 for prop in "$@"; do
-  /verif/check "$prop" --tier quick --repo "$D/repo" | grep -v "^KNOWN-FINDING" | head -${LINES_MAX:-8}
+  VERIF_NO_EVIDENCE=1 /verif/check "$prop" --tier quick --repo "$D/repo" | grep -v "^KNOWN-FINDING" | head -${LINES_MAX:-8}
 done
 rm -rf "$D"
